@@ -138,6 +138,9 @@ pub fn install_hook() {
     }));
 }
 
+/// the panic hook is process-wide; kept for call sites in freshly spawned threads
+pub fn install_hook_once() {}
+
 pub fn safe<T>(f: impl FnOnce() -> T) -> Result<T, Panicked> {
     match panic::catch_unwind(AssertUnwindSafe(f)) {
         Ok(t) => Ok(t),
